@@ -142,7 +142,17 @@ func containsReturn(n ast.Node) bool {
 
 func extractHandler(fl *ast.FuncLit) []rxStep {
 	steps := []rxStep{}
+	seenAuth := false
 	ast.Inspect(fl.Body, func(n ast.Node) bool {
+		if ce, ok := n.(*ast.CallExpr); ok && !seenAuth {
+			// nothing may look at the request before the authorization gate (C03): a call on a request object that
+			// comes BEFORE `authorize(...)` is a step of its own, which no modelled handler has
+			if fun := exprStr(ce.Fun); fun == "authorize" {
+				seenAuth = true
+			} else if touchesRequest(fun) {
+				steps = append(steps, rxStep{K: "preGate", Callee: fun})
+			}
+		}
 		switch x := n.(type) {
 		case *ast.FuncLit:
 			if x != fl {
@@ -271,6 +281,15 @@ func extractHandler(fl *ast.FuncLit) []rxStep {
 		return true
 	})
 	return steps
+}
+
+func touchesRequest(fun string) bool {
+	for _, p := range []string{"ginCtx.", "echoCtx.", "fiberCtx.", "req.", "r.", "chi.", "mux.", "io.", "json."} {
+		if strings.HasPrefix(fun, p) {
+			return true
+		}
+	}
+	return false
 }
 
 func isRequestAccessor(fun string) bool {
